@@ -59,8 +59,11 @@ Theorem C08_closed_start_interruptible : forall n e ka scr ls c os,
 Proof. exact closed_start_interruptible. Qed.
 Theorem C08_closed_finish_interruptible : forall n e ka scr ls c os,
   run (init n e ka scr) ls = Some (c, os) -> cs c = Closed -> phase_running (pc (t_finish c)) = true ->
-  intr_finish c = IFired \/ exists c', step c (LIntr false) = Some (c', []).
-Proof. exact closed_finish_interruptible. Qed.
+  intr_finish c = IFired \/ exists c', step c (LIntr false) = Some (c', []) /\ ready_now c' TFinish.
+Proof. exact closed_finish_interruptible_ready. Qed.
+(* whoever cancels a suspended coroutine - the caller, an interrupt block, a time-out - leaves it resumable *)
+Theorem C08_cancel_leaves_resumable : forall c t, task_running (get_task c t) = true -> ready_now (cancel_task c t) t.
+Proof. exact cancel_task_ready. Qed.
 Theorem C08_closed_disconnect_wait_released : forall n e ka scr ls c os,
   run (init n e ka scr) ls = Some (c, os) -> cs c = Closed -> pc (t_disc c) = PD_Wait ->
   disc_wait_done c = true \/ step c LDiscWaitDone <> None.
